@@ -8,9 +8,12 @@
 //	    L         0|1   liveness of the SNI index as observed on the real code when the line was
 //	                    written (the model takes it as an input; the harness re-observes it)
 //	    policies  .  |  P;P;…        P = <flags>/<sni>/<opq>
-//	              flags  -, d (drop), one of c C k a (client auth: mode request / mode require /
-//	                     trusted_ca_certs / inline ca module), i (empty client_authentication block),
-//	                     or d followed by one of those
+//	              flags  -, d (drop), one client-auth shape letter, or d followed by one:
+//	                     c mode request, C mode require, g mode verify_if_given, k trusted_ca_certs,
+//	                     K trusted_ca_certs + mode require_and_verify, a inline ca module,
+//	                     f trusted_ca_certs_pem_files, l trusted_leaf_certs, v verifiers only (leaf,
+//	                     no loaders), V verifiers only (leaf with a pem loader), w verifiers + mode
+//	                     request, i empty client_authentication block (inactive)
 //	              sni    ~ (no sni matcher) | . (sni matcher with no names) | hex,hex,…
 //	              opq    ~ | increasing letters a..p: a-f remote_ip configs, g-j local_ip configs,
 //	                     k-p sni_regexp configs (fixed tables below; at most one letter per kind)
@@ -25,13 +28,14 @@
 //	    reqs      R;R;…   R = <tls 0|1>/<sniHex>/<hostHex>
 //	  answer: strict=<0|1> r r …   r = in:<site index> | in:* | 421 | s<status>
 //
-//	e2e <hs> <sniHex> <hostHex>
+//	e2e <srv> <hs> <sniHex> <hostHex>
 //	    a REAL crypto/tls handshake (client without certificate, over an in-memory pipe) against the
-//	    TLSConfig of a provisioned server with policies [sni secret.test + client auth require],
+//	    TLSConfig of a provisioned server with policies [sni secret.test + client auth: srv 0 = mode
+//	    require, srv 1 = a leaf verifier module and nothing else, srv 2 = trusted_leaf_certs only],
 //	    [catch-all, fallback_sni public.test], sites secret.test, public.test and strict_sni_host
 //	    left to the auto-enable rule; then one request with that connection's ConnectionState.
 //	    hs = f (handshake failed) | p<i> (completed under policy i) as observed when the line was written.
-//	  answer: hs=f | hs=p<i> r      r as above
+//	  answer: hs=f | hs=p<i> strict=<0|1> r      r as above
 package c19
 
 import (
@@ -214,9 +218,15 @@ type prop struct {
 	live     bool
 	matchers [nOpaque]caddytls.ConnectionMatcher
 	caB64    string
-	e2eSrv   *caddyhttp.Server
-	e2eTLS   *tls.Config
+	caPEM    string
+	caFile   string
+	e2eSrv   [nE2ESrv]*caddyhttp.Server
+	e2eTLS   [nE2ESrv]*tls.Config
 }
+
+const nE2ESrv = 3
+
+const authShapes = "cCgkKaflvVw" // the active client-auth shapes; 'i' is the inactive one
 
 var e2eSites = []string{"secret.test", "public.test"}
 
@@ -298,6 +308,11 @@ func (p *prop) setup() error {
 			return err
 		}
 		p.caB64 = base64.StdEncoding.EncodeToString(der)
+		p.caPEM = string(pem.EncodeToMemory(&pem.Block{Type: "CERTIFICATE", Bytes: der}))
+		p.caFile = d + "/c19-ca.pem"
+		if err := os.WriteFile(p.caFile, []byte(p.caPEM), 0o600); err != nil {
+			return err
+		}
 		p.live, err = p.probeLive()
 		if err != nil {
 			return err
@@ -364,19 +379,16 @@ func (pl policy) authFlag() byte {
 // clientAuth: the policy requires / requests client certificates (what the property calls
 // "a policy requiring client certificates"): any of the active shapes.
 func (pl policy) clientAuth() bool {
-	switch pl.authFlag() {
-	case 'c', 'C', 'k', 'a':
-		return true
-	}
-	return false
+	f := pl.authFlag()
+	return f != 0 && strings.IndexByte(authShapes, f) >= 0
 }
 
 var okFlags = map[string]bool{"-": true, "d": true}
 
 func init() {
-	for _, x := range []string{"c", "C", "k", "a", "i"} {
-		okFlags[x] = true
-		okFlags["d"+x] = true
+	for _, c := range authShapes + "i" {
+		okFlags[string(c)] = true
+		okFlags["d"+string(c)] = true
 	}
 }
 
@@ -494,19 +506,43 @@ func (p *prop) policyJSON(i int, pl policy) map[string]any {
 	if pl.drop() {
 		m["drop"] = true
 	}
-	switch pl.authFlag() {
-	case 'c':
-		m["client_authentication"] = map[string]any{"mode": "request"}
-	case 'C':
-		m["client_authentication"] = map[string]any{"mode": "require"}
-	case 'k':
-		m["client_authentication"] = map[string]any{"trusted_ca_certs": []string{p.caB64}}
-	case 'a':
-		m["client_authentication"] = map[string]any{"ca": map[string]any{"provider": "inline", "trusted_ca_certs": []string{p.caB64}}}
-	case 'i':
-		m["client_authentication"] = map[string]any{}
+	if ca := p.clientAuthJSON(pl.authFlag()); ca != nil {
+		m["client_authentication"] = ca
 	}
 	return m
+}
+
+// clientAuthJSON: the client_authentication block of a shape letter (nil: none).
+func (p *prop) clientAuthJSON(shape byte) map[string]any {
+	leaf := map[string]any{"verifier": "leaf"}
+	leafPEM := map[string]any{"verifier": "leaf", "leaf_certs_loaders": []any{map[string]any{"loader": "pem", "certificates": []string{p.caPEM}}}}
+	switch shape {
+	case 'c':
+		return map[string]any{"mode": "request"}
+	case 'C':
+		return map[string]any{"mode": "require"}
+	case 'g':
+		return map[string]any{"mode": "verify_if_given"}
+	case 'k':
+		return map[string]any{"trusted_ca_certs": []string{p.caB64}}
+	case 'K':
+		return map[string]any{"trusted_ca_certs": []string{p.caB64}, "mode": "require_and_verify"}
+	case 'a':
+		return map[string]any{"ca": map[string]any{"provider": "inline", "trusted_ca_certs": []string{p.caB64}}}
+	case 'f':
+		return map[string]any{"trusted_ca_certs_pem_files": []string{p.caFile}}
+	case 'l':
+		return map[string]any{"trusted_leaf_certs": []string{p.caB64}}
+	case 'v':
+		return map[string]any{"verifiers": []any{leaf}}
+	case 'V':
+		return map[string]any{"verifiers": []any{leafPEM}}
+	case 'w':
+		return map[string]any{"verifiers": []any{leafPEM}, "mode": "request"}
+	case 'i':
+		return map[string]any{}
+	}
+	return nil
 }
 
 func (p *prop) build(pols []policy) (caddytls.ConnectionPolicies, error) {
@@ -581,7 +617,7 @@ func (p *prop) Run(line string) core.Outcome {
 		o = p.runPol(f)
 	case len(f) == 5 && f[0] == "enf":
 		o = p.runEnf(f)
-	case len(f) == 4 && f[0] == "e2e":
+	case len(f) == 5 && f[0] == "e2e":
 		o = p.runE2E(f)
 	default:
 		o = core.Outcome{Impl: "bad-op"}
@@ -889,9 +925,6 @@ func (p *prop) runEnf(f []string) core.Outcome {
 	}
 	// the property: in effect when configured, and BY DEFAULT when a policy requires client certs
 	wantStrict := f[1] == "t" || (f[1] == "n" && anyAuth)
-	if wantStrict && !obsStrict {
-		fail("strict-sni-host-not-enabled", fmt.Sprintf("strict_sni_host=%s, client-auth policy present=%v, but the provisioned server does not enforce strict SNI-Host", f[1], anyAuth))
-	}
 	if f[1] == "n" && anyAuth {
 		tag("auto-enabled")
 	}
@@ -951,6 +984,10 @@ func (p *prop) runEnf(f []string) core.Outcome {
 			}
 		}
 	}
+	// reported after the concrete bypasses it causes (if any), so that those come first
+	if wantStrict && !obsStrict {
+		fail("strict-sni-host-not-enabled", fmt.Sprintf("strict_sni_host=%s, client-auth policy present=%v, but the provisioned server does not enforce strict SNI-Host", f[1], anyAuth))
+	}
 	o.Impl = strings.Join(out, " ")
 	return o
 }
@@ -958,40 +995,42 @@ func (p *prop) runEnf(f []string) core.Outcome {
 // ---------------------------------------------------------------- end to end (real handshake)
 
 func (p *prop) setupE2E() error {
-	pols := []any{
-		map[string]any{"alpn": []string{"c19-0"}, "match": map[string]any{"sni": []string{"secret.test"}},
-			"client_authentication": map[string]any{"mode": "require"}},
-		map[string]any{"alpn": []string{"c19-1"}, "fallback_sni": "public.test"},
+	for k, shape := range []byte{'C', 'V', 'l'} {
+		pols := []any{
+			map[string]any{"alpn": []string{"c19-0"}, "match": map[string]any{"sni": []string{"secret.test"}},
+				"client_authentication": p.clientAuthJSON(shape)},
+			map[string]any{"alpn": []string{"c19-1"}, "fallback_sni": "public.test"},
+		}
+		var routes []any
+		for i, s := range e2eSites {
+			routes = append(routes, map[string]any{
+				"match":    []any{map[string]any{"host": []string{s}}},
+				"handle":   []any{map[string]any{"handler": "verif_c19_probe", "site": strconv.Itoa(i)}},
+				"terminal": true,
+			})
+		}
+		routes = append(routes, map[string]any{"handle": []any{map[string]any{"handler": "verif_c19_probe", "site": "*"}}})
+		raw, _ := json.Marshal(map[string]any{"servers": map[string]any{"s": map[string]any{
+			"listen": []string{":443"}, "automatic_https": map[string]any{"disable": true},
+			"routes": routes, "tls_connection_policies": pols}}})
+		v, err := p.ctx.LoadModuleByID("http", raw)
+		if err != nil {
+			return err
+		}
+		p.e2eSrv[k] = v.(*caddyhttp.App).Servers["s"]
+		p.e2eTLS[k] = p.e2eSrv[k].TLSConnPolicies.TLSConfig(p.ctx)
 	}
-	var routes []any
-	for i, s := range e2eSites {
-		routes = append(routes, map[string]any{
-			"match":    []any{map[string]any{"host": []string{s}}},
-			"handle":   []any{map[string]any{"handler": "verif_c19_probe", "site": strconv.Itoa(i)}},
-			"terminal": true,
-		})
-	}
-	routes = append(routes, map[string]any{"handle": []any{map[string]any{"handler": "verif_c19_probe", "site": "*"}}})
-	raw, _ := json.Marshal(map[string]any{"servers": map[string]any{"s": map[string]any{
-		"listen": []string{":443"}, "automatic_https": map[string]any{"disable": true},
-		"routes": routes, "tls_connection_policies": pols}}})
-	v, err := p.ctx.LoadModuleByID("http", raw)
-	if err != nil {
-		return err
-	}
-	p.e2eSrv = v.(*caddyhttp.App).Servers["s"]
-	p.e2eTLS = p.e2eSrv.TLSConnPolicies.TLSConfig(p.ctx)
 	return nil
 }
 
 // handshake performs a real TLS handshake (client sends sni, offers both markers, has no certificate).
-func (p *prop) handshake(sni string) (hs string, st tls.ConnectionState) {
+func (p *prop) handshake(k int, sni string) (hs string, st tls.ConnectionState) {
 	c1, c2 := net.Pipe()
 	dl := time.Now().Add(3 * time.Second)
 	c1.SetDeadline(dl)
 	c2.SetDeadline(dl)
 	cli := tls.Client(c1, &tls.Config{ServerName: sni, InsecureSkipVerify: true, NextProtos: []string{"c19-0", "c19-1"}})
-	srv := tls.Server(c2, p.e2eTLS)
+	srv := tls.Server(c2, p.e2eTLS[k])
 	done := make(chan struct{})
 	go func() {
 		defer close(done)
@@ -1049,6 +1088,11 @@ func sniSendable(s string) bool {
 
 func (p *prop) runE2E(f []string) core.Outcome {
 	bad := core.Outcome{Impl: "bad-op"}
+	if len(f[1]) != 1 || f[1][0] < '0' || f[1][0] >= '0'+nE2ESrv {
+		return bad
+	}
+	k := int(f[1][0] - '0')
+	f = f[1:]
 	if f[1] != "f" && f[1] != "p0" && f[1] != "p1" {
 		return bad
 	}
@@ -1063,7 +1107,8 @@ func (p *prop) runE2E(f []string) core.Outcome {
 		o.Failures = append(o.Failures, core.Failure{Class: class, What: what})
 	}
 	tag("e2e")
-	hs, st := p.handshake(sni)
+	tag("e2e:srv" + strconv.Itoa(k))
+	hs, st := p.handshake(k, sni)
 	tag("e2e:hs=" + hs)
 	if hs != f[1] {
 		tag("e2e:handshake-result-differs-from-line")
@@ -1089,7 +1134,9 @@ func (p *prop) runE2E(f []string) core.Outcome {
 	r.Host = host
 	r.TLS = &st
 	rec := httptest.NewRecorder()
-	p.e2eSrv.ServeHTTP(rec, r)
+	srv := p.e2eSrv[k]
+	obsStrict := srv.StrictSNIHost != nil && *srv.StrictSNIHost
+	srv.ServeHTTP(rec, r)
 	site := rec.Header().Get("X-C19-Site")
 	var res string
 	switch {
@@ -1106,6 +1153,9 @@ func (p *prop) runE2E(f []string) core.Outcome {
 	if res == "in:0" {
 		fail("client-auth-site-reached-without-certificate", fmt.Sprintf("connection SNI %q (policy %s, no client certificate), Host %q: request reached the handler of %s", sni, hs, host, e2eSites[0]))
 	}
-	o.Impl = "hs=" + hs + " " + res
+	if !obsStrict {
+		fail("strict-sni-host-not-enabled", fmt.Sprintf("e2e server %d (client-auth shape %c) has a client-auth policy and no explicit strict_sni_host, but does not enforce strict SNI-Host", k, "CVl"[k]))
+	}
+	o.Impl = "hs=" + hs + " strict=" + map[bool]string{false: "0", true: "1"}[obsStrict] + " " + res
 	return o
 }
